@@ -39,6 +39,7 @@ def main() -> int:
     ap.add_argument('--check-tier', default='quick')
     ap.add_argument('--skip-check', action='store_true')
     ap.add_argument('--lock', action='store_true', help='serialise the pytest run with other runs that use port 7472')
+    ap.add_argument('--netns', action='store_true', help='run pytest in a private network namespace (own port 7472)')
     a = ap.parse_args()
     name = a.name or a.pid
     wt = '/tmp/conf/' + name
@@ -70,6 +71,8 @@ def main() -> int:
             cmd = ['/venv/bin/python', '-m', 'pytest', '-q', '-p', 'no:cacheprovider', '--timeout=900'] + a.tests.split()
             if a.lock:
                 cmd = ['flock', '/tmp/bqskit-pytest.lock'] + cmd
+            if a.netns:
+                cmd = ['unshare', '-n', 'sh', '-c', 'ip link set lo up; exec "$@"', 'sh'] + cmd
             t = sh(cmd, cwd=wt, env=env, timeout=7200)
             last = [l for l in t.stdout.strip().splitlines() if l.strip()][-1:] or ['']
             out['tests_with_change'] = {'cmd': ' '.join(a.tests.split()), 'exit': t.returncode, 'summary': last[0][-200:], 'wall_s': round(time.time() - t0)}
